@@ -1,5 +1,5 @@
 (* C06 — executable model of hyperparameter mutation:
-     agilerl.algorithms.core.registry.RLParameter.mutate / HyperparameterConfig.sample,
+     agilerl.algorithms.core.registry.RLParam(eter).mutate / HyperparameterConfig.sample,
      agilerl.hpo.mutation.Mutations.rl_hyperparam_mutation / reinit_opt / mutation (rl_hp only),
      the per-individual copy of the configuration made in EvolvableAlgorithm.__init__,
      the attribute check of _registry_init, and clone() as far as hyperparameters are concerned.
@@ -24,7 +24,7 @@ Record numops (T : Type) := {
 Arguments n_mul {T}. Arguments n_ltb {T}. Arguments n_trunc {T}. Arguments n_half {T}.
 
 (* ------------------------------------------------------------------------------------------ *)
-(* value level: RLParameter                                                                    *)
+(* value level: RLParam(eter)                                                                    *)
 (* ------------------------------------------------------------------------------------------ *)
 Section Value.
 Context {T : Type} (O : numops T).
@@ -38,7 +38,7 @@ Definition pymin (a b : T) : T := if n_ltb O b a then b else a.
 (* the coin: shrink iff the uniform draw is < 0.5 *)
 Definition coin_shrink (u : T) : bool := n_ltb O u (n_half O).
 
-(* RLParameter.mutate up to (and including) the final  min(max(new_value, self.min), self.max) *)
+(* RLParam(eter).mutate up to (and including) the final  min(max(new_value, self.min), self.max) *)
 Definition mutate_raw (p : param) (u v : T) : T :=
   let nv :=
     if coin_shrink u then
@@ -54,7 +54,7 @@ Definition cast (p : param) (x : T) : T := if p_int p then n_trunc O x else x.
 
 Definition mutate_value (p : param) (u v : T) : T := cast p (mutate_raw p u v).
 
-(* repeated mutate() on one RLParameter object: value after every call *)
+(* repeated mutate() on one RLParam(eter) object: value after every call *)
 Fixpoint mutate_seq (p : param) (v : T) (us : list T) : list T :=
   match us with
   | [] => []
@@ -74,7 +74,7 @@ Definition branch_of (p : param) (u v : T) : nat :=
 (* ---------------------------------------------------------------------------------------- *)
 Definition name := nat.    (* attribute names are numbered by the harness *)
 
-(* one entry of the individual's HyperparameterConfig: the RLParameter with its cached value *)
+(* one entry of the individual's HyperparameterConfig: the RLParam(eter) with its cached value *)
 Record hpent := { hp_name : name; hp_par : param; hp_cache : option T }.
 
 (* one OptimizerConfig of the registry together with the OptimizerWrapper stored on the agent *)
